@@ -1,0 +1,62 @@
+//go:build verif
+
+// Contracts for the verification machinery in /verif (govc). Comment-only.
+
+package renameio
+
+// C17: the destination is only ever touched by one rename of a temporary file that was
+// fsync'ed (with no write since) and closed before; everything else goes to the temporary.
+
+//@ func tempDir
+//@   modifies fsClosed, fsRemoves, fsRemoved
+//@   ghost var probe bool = false
+//@   at after os.Rename ghost probe = (ret0 == nil)
+//@   ensures dir != "" ==> r0 == dir
+//@   ensures dir == "" ==> r0 == dirOf(dest) || probe
+
+//@ func TempFile
+//@   modifies fsClosed, fsRemoves, fsRemoved
+//@   ensures r1 == nil ==> r0 != nil && fresh(r0) && r0.path == path && !r0.done && !r0.closed && r0.File != nil && isTemp(nameOf(r0.File))
+//@   ensures r1 != nil ==> r0 == nil
+
+//@ func (*PendingFile).CloseAtomicallyReplace
+//@   requires t != nil
+//@   modifies t.closed, t.done, fsSynced, fsClosed, fsPublishes, fsPubSrc, fsPubDst
+//@   at call os.Rename assert fsSynced == t.File && fsClosed == t.File && arg0 == nameOf(t.File) && arg1 == t.path
+//@   ensures r0 == nil ==> t.done
+//@   ensures r0 == nil && !isTemp(old(t.path)) ==> fsPublishes == old(fsPublishes) + 1 && fsPubDst == old(t.path) && fsPubSrc == nameOf(t.File)
+//@   ensures r0 != nil ==> t.done == old(t.done) && fsPublishes == old(fsPublishes)
+//@   ensures isTemp(old(t.path)) ==> fsPublishes == old(fsPublishes)
+
+//@ func (*PendingFile).Cleanup
+//@   requires t != nil
+//@   modifies fsClosed, fsRemoves, fsRemoved
+//@   ensures old(t.done) ==> r0 == nil && fsRemoves == old(fsRemoves)
+//@   ensures !old(t.done) ==> fsRemoves == old(fsRemoves) + 1 && fsRemoved == nameOf(t.File)
+
+//@ func WriteFile
+//@   modifies fsSynced, fsClosed, fsPublishes, fsPubSrc, fsPubDst, fsRemoves, fsRemoved
+//@   ghost var tf *PendingFile = nil
+//@   at after TempFile ghost tf = ret0
+//@   at call (*File).Write assert tf != nil && arg0 == tf.File
+//@   at call (*File).Chmod assert tf != nil && arg0 == tf.File
+//@   ensures r0 == nil && !isTemp(filename) ==> fsPublishes == old(fsPublishes) + 1 && fsPubDst == filename && isTemp(fsPubSrc)
+//@   ensures r0 != nil || isTemp(filename) ==> fsPublishes == old(fsPublishes)
+//@   ensures r0 != nil && tf != nil ==> fsRemoved == nameOf(tf.File) && isTemp(fsRemoved)
+
+// Symlink: the new link is created inside a fresh temporary directory next to newname and
+// then renamed onto newname; nothing else touches newname after the fast path failed.
+//@ func Symlink
+//@   modifies fsPublishes, fsPubSrc, fsPubDst, fsRemoves, fsRemoved
+//@   ghost var d string = ""
+//@   ghost var j string = ""
+//@   ghost var made bool = false
+//@   at call os.MkdirTemp assert arg0 == dirOf(newname)
+//@   at after os.MkdirTemp ghost d = ret0
+//@   at after os.MkdirTemp ghost made = (ret1 == nil)
+//@   at call filepath.Join assert len(arg0) == 2 && arg0[0] == d
+//@   at after filepath.Join ghost j = ret0
+//@   at call os.Symlink#0 assert arg0 == oldname && arg1 == newname
+//@   at call os.Symlink#1 assert arg0 == oldname && arg1 == j
+//@   at call os.Rename assert arg0 == j && arg1 == newname
+//@   ensures made ==> fsRemoved == d
